@@ -22,6 +22,8 @@ structure St where
   lastOk : Option (Msg × Env) := none
   /-- the real state before the last message -/
   prev : Option State := none
+  /-- the invariant gaps on the previous real state -/
+  prevGaps : List (String × String × Int) := []
 
 def init : St := {}
 
@@ -60,6 +62,7 @@ def parseMsg (kind : String) (a : List String) : Option Msg :=
   | "donate" => do pure (.donate (← n 0) (← n 1) (← z 2))
   | "fund" => do pure (.fund (← n 0) (← n 1) (← z 2))
   | "seize" => do pure (.seize (← n 0))
+  | "settle" => do pure (.settle (← n 0))
   | _ => none
 
 def parseProduct (f : List String) : Option Product :=
@@ -100,8 +103,9 @@ def parseProj (f : List String) : Option Proj := do
       pure ({ id := ← parseNat? id, product := ← parseNat? p, amountIn := ← parseInt? i, amountOut := ← parseInt? ou } : StableRec)
     | _ => none
   let locked ← (items (← g "lk")).mapM fun
-    | [id, p, i, ou] => do
-      pure ({ vaultId := ← parseNat? id, product := ← parseNat? p, amountIn := ← parseInt? i, amountOut := ← parseInt? ou } : LockedRec)
+    | [id, p, i, ou, db] => do
+      pure ({ vaultId := ← parseNat? id, product := ← parseNat? p, amountIn := ← parseInt? i, amountOut := ← parseInt? ou,
+              debt := ← parseInt? db } : LockedRec)
     | _ => none
   let maps ← (items (← g "m")).mapM fun
     | [p, c, mi, ids] => do
@@ -127,6 +131,11 @@ def Proj.toState (p : Proj) (ghost : State) : State :=
     vaultIds := fun pr => match p.maps.find? (fun x => x.1 = pr) with | some x => x.2.2.2 | none => [],
     nextVault := p.nv, nextStable := p.ns, length := p.len,
     unsolicited := ghost.unsolicited, extSupply := ghost.extSupply }
+
+def overlay (l : List (Nat × Nat × Int)) (f : Nat → Nat → Int) : Nat → Nat → Int := fun a d =>
+  match l.find? (fun x => x.1 = a ∧ x.2.1 = d) with
+  | some x => x.2.2
+  | none => f a d
 
 def insertLocked (x : LockedRec) : List LockedRec → List LockedRec
   | [] => [x]
@@ -154,24 +163,26 @@ def compare (cfgL : List Product) (m : State) (p : Proj) : List String :=
     if m.supply d = x then none else some s!"supply {d}: model={m.supply d} impl={x}"
   c1 ++ c2 ++ c3 ++ c4 ++ c5 ++ c6 ++ c7 ++ c8
 
-/-- the invariants evaluated on the REAL state -/
-def monitors (cfgL : List Product) (r : State) : List String :=
+/-- the gaps of the invariant equations on the REAL state (all zero when the invariants hold) -/
+def gaps (cfgL : List Product) (r : State) : List (String × String × Int) :=
   let cfg := cfgOf cfgL
   let denoms := dedup (cfgL.map (·.denomIn) ++ cfgL.map (·.denomOut))
   let prods := cfgL.map (·.id)
-  let m1 := denoms.filterMap fun d => if decide (CustodyAt cfg r d) then none else
-    some s!"custody_eq\tdenom {d}: custody={r.bal vm d} recorded={collRecorded cfg r d} unsolicited={r.unsolicited d}"
-  let m2 := if decide (CountOk r) then [] else [s!"count_eq\tlength={r.length} open vaults={r.vaults.length}"]
-  let m3 := prods.filterMap fun pr => if decide (TotalsAt r pr) then none else
-    some s!"totals_eq\tproduct {pr}: coll={r.coll pr} vs {collOfProduct r pr}; minted={r.minted pr} vs {mintedOfProduct r pr}"
-  let m4 := denoms.filterMap fun d => if decide (SupplyAt cfg r d) then none else
-    some s!"supply_eq_principal\tdenom {d}: supply={r.supply d} principal={principalRecorded cfg r d} ext={r.extSupply d}"
-  m1 ++ m2 ++ m3 ++ m4
+  denoms.map (fun d => ("custody_eq", s!"denom {d}", r.bal vm d - collRecorded cfg r d - r.unsolicited d)) ++
+  [("count_eq", "vaults", r.length - r.vaults.length)] ++
+  prods.map (fun pr => ("totals_eq", s!"collateral of product {pr}", r.coll pr - collOfProduct r pr)) ++
+  prods.map (fun pr => ("totals_eq", s!"minted of product {pr}", r.minted pr - mintedOfProduct r pr)) ++
+  denoms.map (fun d => ("supply_eq_principal", s!"denom {d}", r.supply d - principalRecorded cfg r d - r.extSupply d))
 
-def overlay (l : List (Nat × Nat × Int)) (f : Nat → Nat → Int) : Nat → Nat → Int := fun a d =>
-  match l.find? (fun x => x.1 = a ∧ x.2.1 = d) with
-  | some x => x.2.2
-  | none => f a d
+/-- the invariants as monitors: a monitor fires on the line where a gap CHANGES (so one cause is reported once, on the
+line that caused it, and an existing mismatch neither repeats nor hides a new one). On an auction-settlement line the
+supply may fall below the recorded principal (the auction burns interest and closing fee too): only an increase counts. -/
+def monitors (cfgL : List Product) (prev : List (String × String × Int)) (r : State) (isSettle : Bool) : List String :=
+  (gaps cfgL r).filterMap fun (name, what, g) =>
+    let g0 := match prev.find? (fun x => x.1 = name ∧ x.2.1 = what) with | some x => x.2.2 | none => 0
+    if g = g0 then none
+    else if isSettle ∧ name = "supply_eq_principal" ∧ g < g0 then none
+    else some s!"{name}\t{what}: gap {g0} -> {g}"
 
 /-- per-message monitors, evaluated on the REAL states before / after an accepted message -/
 def msgMonitors (cfgL : List Product) (prev real : State) (m : Msg) (e : Env) : List String :=
@@ -252,20 +263,26 @@ def handle (st : St) (seq : String) (f : List String) : St × List String :=
         if outcome = "ok" then (st', [s!"DIFF\t{seq}\tmodel rejects, impl accepts: {st'.lastMsg}"])
         else (st', [])
     | _, _ => (st, [s!"BAD\t{seq}\tcannot parse msg/env"])
-  | "vault.state" :: rest =>
+  | kind :: rest =>
+    if kind ≠ "vault.state" ∧ kind ≠ "vault.state.settle" then (st, [s!"BAD\t{seq}\tunknown vault line"]) else
+    let isSettle := kind = "vault.state.settle"
     match parseProj rest with
     | none => (st, [s!"BAD\t{seq}\tcannot parse state"])
     | some p =>
-      let diffs := (compare st.cfgL st.s p).map fun d => s!"DIFF\t{seq}\tafter [{st.lastMsg}] {d}"
-      let r := p.toState st.s
+      -- on a settlement line the bidders' coins, the penalty and the burn are C10's subject: balances and supply are adopted
+      let m0 : State := if isSettle then { st.s with bal := overlay p.bal st.s.bal,
+                                                     supply := (p.toState st.s).supply } else st.s
+      let diffs := (compare st.cfgL m0 p).map fun d => s!"DIFF\t{seq}\tafter [{st.lastMsg}] {d}"
+      let r := p.toState m0
       let perMsg := match st.prev, st.lastOk with
         | some pv, some (m, e) => msgMonitors st.cfgL pv r m e
         | _, _ => []
-      let mons := (monitors st.cfgL r ++ limitMonitors st.cfgL r ++ perMsg).map fun m => s!"MON\t{seq}\t{m}\tafter [{st.lastMsg}]"
+      let mons := (monitors st.cfgL st.prevGaps r isSettle ++ limitMonitors st.cfgL r ++ perMsg).map fun m => s!"MON\t{seq}\t{m}\tafter [{st.lastMsg}]"
       -- resynchronise on the real state so that later divergences are independent
-      let old := st.s
+      let old := m0
       let resync : State := { r with bal := overlay p.bal old.bal }
-      ({ st with s := if diffs.isEmpty then old else resync, prev := some r, lastOk := none }, diffs ++ mons)
+      ({ st with s := if diffs.isEmpty then old else resync, prev := some r, lastOk := none,
+                 prevGaps := (gaps st.cfgL r) }, diffs ++ mons)
   | _ => (st, [s!"BAD\t{seq}\tunknown vault line"])
 
 end Comdex.Drv.Vault
